@@ -1047,14 +1047,16 @@ def bisectForward (ph : Phys) : Nat → (begin_ searched end_ endgran endserial 
   | fuel + 1, begin_, searched, end_, endgran, endserial, curlist, m, serialno => do
       if curlist.contains endserial then
         -- a single link is left: find its last page of our serial
-        let rec back (f : Nat) (es eg sr : Int) : M Int :=
+        let rec back (f : Nat) (es eg sr : Int) : M (Int × Int) :=
           match f with
-          | 0 => return eg
+          | 0 => return (0, eg)
           | f' + 1 => do
-              if es = serialno then return eg
+              if es = serialno then return (0, eg)
               let (o, s, g) ← getPrevPageSerial ph sr curlist serialno eg
+              if o < 0 then return (o, g)          -- `if(searched<0)return(searched);` (repair F37)
               back f' s g o
-        let eg ← back (ph.pages.size + 1) endserial endgran end_
+        let (berr, eg) ← back (ph.pages.size + 1) endserial endgran end_
+        if berr < 0 then return berr
         modify fun vf =>
           let n := m + 1
           { vf with links := n,
@@ -1079,14 +1081,16 @@ def bisectForward (ph : Phys) : Nat → (begin_ searched end_ endgran endserial 
                 let vf ← get
                 bis f' vf.offset esrch next
         let next ← bis (ph.pages.size + 80) searched end_ end_
-        let rec back2 (f : Nat) (ts sg sr : Int) (first : Bool) : M Int :=
+        let rec back2 (f : Nat) (ts sg sr : Int) (first : Bool) : M (Int × Int) :=
           match f with
-          | 0 => return sg
+          | 0 => return (0, sg)
           | f' + 1 => do
-              if !first ∧ ts = serialno then return sg
+              if !first ∧ ts = serialno then return (0, sg)
               let (o, s, g) ← getPrevPageSerial ph sr curlist serialno sg
+              if o < 0 then return (o, g)          -- `if(searched<0)return(searched);` (repair F37)
               back2 f' s g o false
-        let searchgran ← back2 (ph.pages.size + 2) (serialno + 1) (-1) next true
+        let (berr2, searchgran) ← back2 (ph.pages.size + 2) (serialno + 1) (-1) next true
+        if berr2 < 0 then return berr2
         let _ ← seekHelper next
         let (rc2, nlist) ← fetchHeaders ph none
         if rc2 ≠ 0 then return rc2
